@@ -24,7 +24,12 @@ definition accounts for makes the generator FAIL (non-zero exit, message naming 
 statement).  Nothing is skipped silently: the regimes that are deliberately not translated are listed
 in SKIPPED with the reason.
 
-Standard library only.  `main()` regenerates coq/Gen/Exprs.v (written only when the content changes).
+Standard library only.  `main()` regenerates coq/Gen/Exprs.v and coq/Gen/Exprs2.v (each written only when its
+content changes).
+
+PART 2 (second half of this file, SPECS2 -> coq/Gen/Exprs2.v, tied by Proofs/ExprsTie2.v) extends the same mechanism
+to src/sop/cube.rs, src/sop/ecube.rs, src/bdd.rs and src/canonization.rs with a translator that is typed by the
+declared Rust types (u32 / u64 / usize / bool / Cube / Ecube); see the comment that opens part 2.
 """
 import os
 import re
@@ -165,9 +170,10 @@ def parse_block(toks, where):
             if pat and pat[0].text == "mut":
                 pat = pat[1:]
             colon = find_at_depth0(pat, 0, {":"}, where)
+            ann = pat[colon + 1:]
             pat = pat[:colon]
             name = pat[0].text if len(pat) == 1 and pat[0].kind == "id" else None
-            out.append(Stmt("let", toks[i:j + 1], name=name, rhs=rhs))
+            out.append(Stmt("let", toks[i:j + 1], name=name, rhs=rhs, ann="".join(t.text for t in ann)))
             i = j + 1
         elif t.text == "if":
             start = i
@@ -228,7 +234,9 @@ def parse_block(toks, where):
 # expressions: precedence climbing.  AST = nested tuples (parentheses leave no node)
 #   ('int', value, hex?)  ('path', 'a::b')  ('un', op, e)  ('bin', op, l, r)  ('cast', e, ty)
 #   ('idx', base, i)  ('call', f, (args))  ('mcall', recv, name, (args))  ('if', c, t, e)
-#   ('closure', (params), body)
+#   ('closure', (params), body, (declared parameter types or ''))   body may be ('block', [Stmt..])
+#   ('field', e, name)  ('struct', Name, ((field, e)..))  ('range', lo or None, hi or None, inclusive?)
+#   ('let', name, annotation, rhs, body)  (built from statement blocks, never by the expression parser)
 
 BIN_PREC = {
     "*": 10, "/": 10, "%": 10,
@@ -242,18 +250,25 @@ BIN_PREC = {
     "||": 2,
 }
 AS_PREC = 11
+RANGE_PREC = 1
+# struct names whose literals `Name { field: e, .. }` are parsed (filled by part 2)
+STRUCT_NAMES = set()
 COMPARISONS = {"==", "!=", "<", ">", "<=", ">="}
 INT_TYPES = {"u8", "u16", "u32", "u64", "u128", "usize", "i8", "i16", "i32", "i64", "i128", "isize"}
 
 
 def parse_int_token(text):
+    """('int', value, written in hex/binary?, type suffix or '')"""
     raw = text.replace("_", "")
-    raw = re.sub(INT_SUFFIX + "$", "", raw)
+    m = re.search(INT_SUFFIX + "$", raw)
+    suffix = m.group() if m else ""
+    if suffix:
+        raw = raw[:-len(suffix)]
     if raw.startswith("0x"):
-        return ("int", int(raw, 16), True)
+        return ("int", int(raw, 16), True, suffix)
     if raw.startswith("0b"):
-        return ("int", int(raw, 2), True)
-    return ("int", int(raw), False)
+        return ("int", int(raw, 2), True, suffix)
+    return ("int", int(raw), False, suffix)
 
 
 class ExprParser:
@@ -287,9 +302,17 @@ class ExprParser:
         return e
 
     def expr(self, min_prec):
+        if self.peek() in ("..", "..=") and min_prec <= RANGE_PREC:
+            incl = self.next().text == "..="
+            hi = None if self.peek() in (None, ")", "]", ",", "}") else self.expr(RANGE_PREC + 1)
+            return ("range", None, hi, incl)
         lhs = self.unary()
         while True:
             op = self.peek()
+            if op in ("..", "..=") and min_prec <= RANGE_PREC:
+                self.next()
+                hi = None if self.peek() in (None, ")", "]", ",", "}") else self.expr(RANGE_PREC + 1)
+                return ("range", lhs, hi, op == "..=")
             if op == "as" and AS_PREC >= min_prec:
                 self.next()
                 lhs = ("cast", lhs, self.type_())
@@ -304,13 +327,41 @@ class ExprParser:
             lhs = ("bin", op, lhs, rhs)
 
     def type_(self):
+        """a type, returned as its text without spaces: u32, &u64, &mut [u8], Vec<u64>, (&u64, &u64), a::b"""
         t = self.next()
+        if t.text == "&":
+            if self.peek() == "mut":
+                self.next()
+                return "&mut " + self.type_()
+            return "&" + self.type_()
+        if t.text in ("(", "["):
+            close = OPEN[t.text]
+            parts = []
+            while self.peek() != close:
+                parts.append(self.type_())
+                if self.peek() in (",", ";"):
+                    sep = self.next().text
+                    if sep == ";":
+                        parts[-1] += ";" + self.next().text
+            self.expect(close)
+            return t.text + ",".join(parts) + close
         if t.kind != "id":
-            self.err("type expected after `as`")
+            self.err("type expected")
         name = t.text
         while self.peek() == "::":
             self.next()
             name += "::" + self.next().text
+        if self.peek() == "<":
+            self.next()
+            parts = []
+            while self.peek() not in (">", ">>"):
+                parts.append(self.type_())
+                if self.peek() == ",":
+                    self.next()
+            if self.peek() == ">>":
+                self.err("nested generic types are outside the fragment")
+            self.expect(">")
+            name += "<" + ",".join(parts) + ">"
         return name
 
     def unary(self):
@@ -323,18 +374,27 @@ class ExprParser:
         if op == "|":
             self.next()
             params = []
+            types = []
             while self.peek() != "|":
                 t = self.next()
                 if t.kind != "id":
                     self.err("closure parameter expected")
                 params.append(t.text)
+                types.append("")
                 if self.peek() == ":":
                     self.next()
-                    self.type_()
+                    types[-1] = self.type_()
                 if self.peek() == ",":
                     self.next()
             self.expect("|")
-            return ("closure", tuple(params), self.expr(0))
+            if self.peek() == "{":
+                e = skip_group(self.toks, self.i, self.where)
+                inner = self.toks[self.i + 1:e]
+                if inner and (inner[0].text in ("let", "if", "return", "for") or
+                              find_at_depth0(inner, 0, {";"}, self.where) < len(inner)):
+                    self.i = e + 1
+                    return ("closure", tuple(params), ("block", parse_block(inner, self.where)), tuple(types))
+            return ("closure", tuple(params), self.expr(0), tuple(types))
         return self.postfix(self.primary())
 
     def args(self):
@@ -362,8 +422,14 @@ class ExprParser:
             elif op == ".":
                 self.next()
                 name = self.next()
-                if name.kind != "id" or self.peek() != "(":
-                    self.err("only method calls are supported after `.`")
+                if name.kind == "int" and re.fullmatch(r"[0-9]+", name.text):
+                    e = ("field", e, name.text)
+                    continue
+                if name.kind != "id":
+                    self.err("method or field name expected after `.`")
+                if self.peek() != "(":
+                    e = ("field", e, name.text)
+                    continue
                 self.next()
                 e = ("mcall", e, name.text, self.args())
             else:
@@ -406,6 +472,24 @@ class ExprParser:
             while self.peek() == "::":
                 self.next()
                 name += "::" + self.next().text
+            if name in STRUCT_NAMES and self.peek() == "{":
+                self.next()
+                fields = []
+                while self.peek() != "}":
+                    f = self.next()
+                    if f.kind != "id":
+                        self.err("field name expected in `%s { .. }`" % name)
+                    if self.peek() == ":":
+                        self.next()
+                        fields.append((f.text, self.expr(0)))
+                    else:
+                        fields.append((f.text, ("path", f.text)))
+                    if self.peek() == ",":
+                        self.next()
+                    elif self.peek() != "}":
+                        self.err("`,` or `}` expected in `%s { .. }`" % name)
+                self.expect("}")
+                return ("struct", name, tuple(fields))
             return ("path", name)
         self.err("unexpected token `%s`" % t.text)
 
@@ -454,7 +538,7 @@ class Translator:
             else "(" + text + ")"
 
     def lit(self, e, want):
-        _, v, hexa = e
+        v, hexa = e[1], e[2]
         if want == "nat":
             if v > 1000:
                 self.err("literal %d in a nat context" % v)
@@ -1038,6 +1122,8 @@ def check_coverage(fn, regions):
             elif s.kind == "for":
                 walk(s.body, path, strict)
             elif s.kind == "if":
+                if s.covered:
+                    continue
                 for cond, body in s.branches:
                     p2 = path + (cond_text(cond),)
                     if strict and leads_to_region(p2):
@@ -1111,16 +1197,1508 @@ def generate():
     return "\n".join(lines), defs
 
 
+# ==============================================================================================
+# PART 2: two-level forms (sop/cube.rs, sop/ecube.rs), the BDD kernel (bdd.rs) and the certificate
+# reconstruction of canonization.rs  ->  coq/Gen/Exprs2.v   (tied to the model by Proofs/ExprsTie2.v)
+#
+# Differences with part 1 (part 1 is left as it is, its output is byte-identical):
+#   * expressions are typed by the DECLARED Rust types: struct fields, function signatures, closure parameter
+#     annotations, `let x: T`, literal suffixes.  u8/u32/u64/usize are all `N` in Gallina but the width decides
+#         !x           -> not32 x (u32)   not64 x (u64, usize)      negb x (bool)
+#         e as u32     -> wrap32 e  when e is wider than 32 bits,   e as u8 -> wrap8 e,   widening casts -> e
+#         x << s       -> wrap32 (N.shiftl x s) (u32)   shl64 x s (u64)      1 << s -> N.shiftl 1 s  (any width)
+#     a literal takes the type of its context (field, other operand, annotation, return type)
+#   * x.count_ones() -> popcount x    x.trailing_zeros() -> Canon.trailing_zeros x    a % b -> a mod b
+#     x.saturating_sub(y) -> x - y  (subtraction of N is the saturating one)    s.len() -> N.of_nat (length s)
+#   * struct literals and fields:  Cube { pos: a, neg: b } -> mkCube a b   c.pos -> cpos c  (field list and field
+#     types are read from the `struct` item; the Gallina record is vocabulary)
+#   * a function translated as a whole (target `value`: lets, if/else and early `return`s of the body become one
+#     expression) can be called from the functions translated after it: `c.is_zero()` -> gx_cube_is_zero c,
+#     `Cube::zero()` -> gx_cube_zero, `a & b` on cubes -> the BitAnd impl selected by the operand types
+#   * `==` on a struct is the derived PartialEq: cube_eqb / ecube_eqb of the model
+#   * on request (guard=True) the dev-profile checks of the shift amounts of a definition (amount < width of the
+#     shifted type) are emitted as a boolean companion definition <name>_shift_ok
+
+CUBE = "src/sop/cube.rs"
+ECUBE = "src/sop/ecube.rs"
+BDD = "src/bdd.rs"
+CANON = "src/canonization.rs"
+FILES2 = (CUBE, ECUBE, BDD, CANON)
+
+INT_WIDTH = {"u8": 8, "u16": 16, "u32": 32, "u64": 64, "usize": 64}
+WRAP = {8: "wrap8", 32: "wrap32", 64: "wrap64"}
+NOT = {32: "not32", 64: "not64"}
+
+# Rust struct -> Gallina record (vocabulary; the field names, their order and their types are checked against /
+# read from the `struct` item of the source)
+STRUCT_VOCAB = {
+    "Cube": {"file": CUBE, "ty": "cube", "ctor": "mkCube", "proj": [("pos", "cpos"), ("neg", "cneg")], "eqb": "cube_eqb"},
+    "Ecube": {"file": ECUBE, "ty": "ecube", "ctor": "mkEcube", "proj": [("vars", "evars"), ("xnor", "exnor")],
+              "eqb": "ecube_eqb"},
+}
+STRUCT_OF_TY = {v["ty"]: k for k, v in STRUCT_VOCAB.items()}
+OP_TRAITS = {"&": ("BitAnd", "bitand"), "^": ("BitXor", "bitxor"), "|": ("BitOr", "bitor")}
+
+COQ_TYPE2 = {"u8": "N", "u16": "N", "u32": "N", "u64": "N", "usize": "N", "lit": "N", "nat": "nat", "bool": "bool",
+             "cube": "cube", "&cube": "cube", "ecube": "ecube", "&ecube": "ecube"}
+
+
+def coq_type2(ty, where):
+    if ty in COQ_TYPE2:
+        return COQ_TYPE2[ty]
+    if ty.startswith("slice:") and ty[6:] in INT_WIDTH:
+        return "list N"
+    fail("%s: no Gallina type for the Rust type `%s`" % (where, ty))
+
+
+def is_int(ty):
+    return ty in INT_WIDTH or ty in ("nat", "lit")
+
+
+def base_ty(ty):
+    return ty[1:] if ty.startswith("&") else ty
+
+
+def rust_type(text, self_ty=None, output_ty=None):
+    """Rust type text -> type of the translator"""
+    t = "".join(text.split())
+    if t in ("Self::Output", "Self::Output"):
+        return output_ty or ("opaque:" + t)
+    ref = False
+    if t.startswith("&mut"):
+        ref, t = True, t[4:]
+    elif t.startswith("&"):
+        ref, t = True, t[1:]
+    if t == "Self" and self_ty:
+        return ("&" + base_ty(self_ty)) if ref else self_ty
+    if t in INT_WIDTH or t == "bool":
+        return t
+    if t in STRUCT_VOCAB:
+        return ("&" if ref else "") + STRUCT_VOCAB[t]["ty"]
+    m = re.fullmatch(r"\[(\w+)\]|Vec<(\w+)>", t)
+    if m and (m.group(1) or m.group(2)) in INT_WIDTH:
+        return "slice:" + (m.group(1) or m.group(2))
+    return "opaque:" + t
+
+
+IMPL_START = re.compile(r"(^|\n)[ \t]*impl\b")
+FN2_RE = re.compile(r"\bfn\s+([a-zA-Z_0-9]+)\s*(<[^>]*>)?\s*\(", re.S)
+
+
+def fns_with_ret(body):
+    """(name, params text, return type text or '', fn body) for each fn directly in body (same scan as gen.fns)"""
+    pos = 0
+    while True:
+        m = FN2_RE.search(body, pos)
+        if not m:
+            return
+        i = m.end() - 1
+        depth = 0
+        j = i
+        while j < len(body):
+            if body[j] == "(":
+                depth += 1
+            elif body[j] == ")":
+                depth -= 1
+                if depth == 0:
+                    break
+            j += 1
+        params = body[i + 1:j]
+        k = semi = -1
+        d2 = 0
+        q = j + 1
+        while q < len(body):
+            ch = body[q]
+            if ch in "([<":
+                d2 += 1
+            elif ch in ")]>":
+                if not (ch == ">" and body[q - 1] == "-"):
+                    d2 -= 1
+            elif ch == ";" and d2 <= 0:
+                semi = q
+                break
+            elif ch == "{" and d2 <= 0:
+                k = q
+                break
+            q += 1
+        if k < 0 or (0 <= semi < k):
+            pos = j + 1
+            continue
+        ret = " ".join(body[j + 1:k].split())
+        ret = ret[2:].strip() if ret.startswith("->") else ""
+        e = G.match_brace(body, k)
+        yield m.group(1), " ".join(params.split()), ret, body[k + 1:e]
+        pos = e + 1
+
+
+def split_top(text, sep=","):
+    out, depth, cur = [], 0, ""
+    for ch in text:
+        if ch in "([<{":
+            depth += 1
+        elif ch in ")]>}":
+            depth -= 1
+        if ch == sep and depth == 0:
+            out.append(cur)
+            cur = ""
+        else:
+            cur += ch
+    if cur.strip():
+        out.append(cur)
+    return [x.strip() for x in out]
+
+
+class Source2:
+    """one Rust file: struct items, `use` of cmp::max/min, every fn keyed by (impl header or '', name)"""
+
+    def __init__(self, rel):
+        self.rel = rel
+        src = G.cut_tests(G.strip_comments(G.read(rel)))
+        self.src = src
+        self.cmp_imports = set()
+        for m in re.finditer(r"\buse\s+(?:std|core)::([^;]*);", src):
+            for name in ("max", "min"):
+                if re.search(r"\bcmp::(?:\{[^}]*\b%s\b[^}]*\}|%s\b)" % (name, name), m.group(1)):
+                    self.cmp_imports.add(name)
+        self.structs = {}
+        for m in re.finditer(r"\bstruct\s+([A-Za-z0-9_]+)\s*\{", src):
+            j = G.match_brace(src, m.end() - 1)
+            fields = []
+            for f in split_top(src[m.end():j]):
+                f = re.sub(r"^pub(\([a-z]+\))?\s+", "", f)
+                name, _, ty = f.partition(":")
+                fields.append((name.strip(), "".join(ty.split())))
+            self.structs[m.group(1)] = fields
+        self.fns = {}
+        self.order = []
+        pos = 0
+        rest = []
+        while True:
+            m = IMPL_START.search(src, pos)
+            if not m:
+                rest.append(src[pos:])
+                break
+            i = src.find("{", m.end())
+            j = G.match_brace(src, i)
+            header = " ".join(src[m.start():i].split())
+            rest.append(src[pos:m.start()])
+            self._register(header, src[i + 1:j])
+            pos = j + 1
+        self._register("", "".join(rest))
+
+    def _register(self, header, body):
+        self_ty = output_ty = None
+        if header:
+            m = re.match(r"impl\s+(?:(.*?)\s+for\s+)?(\S+)$", header)
+            if not m:
+                fail("%s: cannot read the impl header `%s`" % (self.rel, header))
+            self_ty = rust_type(m.group(2))
+            mo = re.search(r"\btype\s+Output\s*=\s*([^;]+);", body)
+            if mo:
+                output_ty = rust_type(mo.group(1), self_ty)
+        for name, params, ret, fbody in fns_with_ret(body):
+            key = (header, name)
+            if key in self.fns:
+                fail("%s: two functions `%s` in `%s`" % (self.rel, name, header or "the file"))
+            ps = []
+            for p in split_top(params):
+                q = "".join(p.split())
+                if q in ("self", "mutself"):
+                    ps.append(("self", self_ty))
+                elif q in ("&self", "&mutself"):
+                    ps.append(("self", "&" + base_ty(self_ty)))
+                else:
+                    pn, _, pt = p.partition(":")
+                    pn = pn.replace("mut ", "").strip()
+                    ps.append((pn, rust_type(pt, self_ty, output_ty)))
+            self.fns[key] = {"params": ps, "ret": rust_type(ret, self_ty, output_ty) if ret else "unit",
+                             "body": fbody, "header": header, "name": name}
+            self.order.append(key)
+
+
+def fn_label(impl, name):
+    return ("%s :: fn %s" % (impl, name)) if impl else ("fn " + name)
+
+
+# ----------------------------------------------------------------------------------------------
+# part 2: typed translation
+
+# whole functions already translated: (file, impl header, fn) -> {"name", "params": [types], "ret": type}
+REGISTRY = {}
+SOURCES2 = {}
+
+
+def subexprs2(e):
+    yield e
+    k = e[0]
+    if k in ("un", "field"):
+        yield from subexprs2(e[1] if k == "field" else e[2])
+    elif k == "cast":
+        yield from subexprs2(e[1])
+    elif k == "bin":
+        yield from subexprs2(e[2])
+        yield from subexprs2(e[3])
+    elif k == "idx":
+        yield from subexprs2(e[1])
+        yield from subexprs2(e[2])
+    elif k == "if":
+        for x in e[1:4]:
+            yield from subexprs2(x)
+    elif k == "closure":
+        if e[2][0] != "block":
+            yield from subexprs2(e[2])
+    elif k == "call":
+        yield from subexprs2(e[1])
+        for a in e[2]:
+            yield from subexprs2(a)
+    elif k == "mcall":
+        yield from subexprs2(e[1])
+        for a in e[3]:
+            yield from subexprs2(a)
+    elif k == "struct":
+        for _, x in e[2]:
+            yield from subexprs2(x)
+    elif k == "range":
+        for x in e[1:3]:
+            if x is not None:
+                yield from subexprs2(x)
+    elif k == "let":
+        yield from subexprs2(e[3])
+        yield from subexprs2(e[4])
+
+
+def free_vars2(e, abstractions, bound=frozenset()):
+    for ast, name in abstractions:
+        if ast == e:
+            return {name}
+    k = e[0]
+    if k == "int":
+        return set()
+    if k == "path":
+        return set() if ("::" in e[1] or e[1] in bound) else {e[1]}
+    if k == "closure":
+        if e[2][0] == "block":
+            fail("internal: free variables of a block closure")
+        return free_vars2(e[2], abstractions, bound | set(e[1]))
+    if k == "let":
+        return free_vars2(e[3], abstractions, bound) | free_vars2(e[4], abstractions, bound | {e[1]})
+    kids = {"un": [e[2]] if k == "un" else [], "field": [e[1]] if k == "field" else [], "cast": [e[1]] if k == "cast" else [],
+            "bin": list(e[2:4]) if k == "bin" else [], "idx": list(e[1:3]) if k == "idx" else [],
+            "if": list(e[1:4]) if k == "if" else [],
+            "call": (([] if e[1][0] == "path" else [e[1]]) + list(e[2])) if k == "call" else [],
+            "mcall": ([e[1]] + list(e[3])) if k == "mcall" else [],
+            "struct": [x for _, x in e[2]] if k == "struct" else [],
+            "range": [x for x in e[1:3] if x is not None] if k == "range" else []}
+    if k not in kids:
+        fail("internal: free_vars2 of %r" % (k,))
+    s = set()
+    for x in kids[k]:
+        s |= free_vars2(x, abstractions, bound)
+    return s
+
+
+class Translator2:
+    def __init__(self, where, env, abstractions, source, hints=None):
+        self.where = where
+        self.env = dict(env)              # rust name -> type
+        self.abstractions = abstractions  # [(ast, parameter name)]
+        self.source = source              # Source2 of the function (cmp imports, struct items)
+        self.hints = hints or {}          # local -> type, for locals whose type rustc infers from a use we do not see
+        self.guards = []                  # (shift amount text, width or None), in emission order
+        self.recording = True
+        self.calls = []                   # generated definitions this one forwards to
+
+    def err(self, msg):
+        fail("%s: cannot translate: %s" % (self.where, msg))
+
+    paren = staticmethod(Translator.paren)
+
+    def abstracted(self, e):
+        for ast, name in self.abstractions:
+            if ast == e:
+                return name
+        return None
+
+    def ty_of(self, e, want=None):
+        rec, self.recording = self.recording, False
+        n = len(self.calls)
+        try:
+            return self.tr(e, want)[1]
+        finally:
+            self.recording = rec
+            del self.calls[n:]
+
+    @staticmethod
+    def unify(a, b):
+        """common type of two integer operands, or None"""
+        if a == b:
+            return a
+        if a == "lit":
+            return b
+        if b == "lit":
+            return a
+        if a == "nat" and b == "usize" or a == "usize" and b == "nat":
+            return "usize"
+        return None
+
+    def lit(self, e, ty):
+        v, hexa = e[1], e[2]
+        if ty == "nat":
+            if v > 1000:
+                self.err("literal %d in a nat context" % v)
+            return "%d%%nat" % v
+        if ty in INT_WIDTH and v >= 2 ** INT_WIDTH[ty]:
+            self.err("literal %d does not fit %s" % (v, ty))
+        return ("0x%x" % v) if hexa and v > 9 else str(v)
+
+    def coerce(self, e, want):
+        """translate e at type want (an integer type, 'bool' or a struct type); nat <-> N conversions inserted"""
+        text, ty = self.tr(e, want)
+        if ty == want or ty == "lit" and is_int(want):
+            return text
+        if ty == "nat" and want in INT_WIDTH:
+            if want != "usize":
+                self.err("`%s` is a usize (nat) where %s is expected" % (text, want))
+            return "N.of_nat " + self.paren(text)
+        if ty == "usize" and want == "nat":
+            return "N.to_nat " + self.paren(text)
+        if base_ty(ty) == base_ty(want) and base_ty(ty) in STRUCT_OF_TY:
+            return text
+        self.err("type mismatch: `%s` has type %s where %s is expected" % (text, ty, want))
+
+    def as_amount(self, e):
+        """a shift amount (any integer type) as N"""
+        text, ty = self.tr(e, None)
+        if not is_int(ty):
+            self.err("shift amount `%s` of type %s" % (text, ty))
+        return ("N.of_nat " + self.paren(text)) if ty == "nat" else text
+
+    # -- main
+    def tr(self, e, want=None):
+        a = self.abstracted(e)
+        if a is not None:
+            if a not in self.env:
+                self.err("abstraction parameter %s is not declared" % a)
+            return cid(a), self.env[a]
+        k = e[0]
+        if k == "int":
+            ty = e[3] or (want if want and is_int(want) else "lit")
+            if e[3] and e[3] not in INT_WIDTH:
+                self.err("literal suffix %s" % e[3])
+            return self.lit(e, ty), ty
+        if k == "path":
+            name = e[1]
+            if name in PATH_CONSTS:
+                return str(PATH_CONSTS[name]), "usize"
+            if name in ("true", "false"):
+                return name, "bool"
+            if "::" in name:
+                self.err("unknown path `%s`" % name)
+            if name not in self.env:
+                self.err("unknown identifier `%s`" % name)
+            return cid(name), self.env[name]
+        if k == "un":
+            return self.tr_un(e, want)
+        if k == "cast":
+            return self.tr_cast(e)
+        if k == "bin":
+            return self.tr_bin(e, want)
+        if k == "field":
+            text, ty = self.tr(e[1])
+            st = STRUCT_OF_TY.get(base_ty(ty))
+            if st is None:
+                self.err("field `%s` of `%s` : %s" % (e[2], text, ty))
+            fields = dict(struct_fields(st, self.where))
+            proj = dict(STRUCT_VOCAB[st]["proj"])
+            if e[2] not in fields:
+                self.err("`%s` has no field `%s`" % (st, e[2]))
+            return "%s %s" % (proj[e[2]], self.paren(text)), fields[e[2]]
+        if k == "struct":
+            st = e[1]
+            fields = struct_fields(st, self.where)
+            given = dict(e[2])
+            if sorted(given) != sorted(f for f, _ in fields) or len(given) != len(e[2]):
+                self.err("`%s { .. }` does not give exactly the fields %s" % (st, ", ".join(f for f, _ in fields)))
+            args = [self.paren(self.coerce(given[f], t)) for f, t in fields]
+            return "%s %s" % (STRUCT_VOCAB[st]["ctor"], " ".join(args)), STRUCT_VOCAB[st]["ty"]
+        if k == "call":
+            return self.tr_call(e, want)
+        if k == "mcall":
+            return self.tr_mcall(e, want)
+        if k == "if":
+            c = self.coerce(e[1], "bool")
+            ta, tb = self.ty_of(e[2], want), self.ty_of(e[3], want)
+            if is_int(ta) and is_int(tb):
+                ty = self.unify(ta, tb)
+                if ty is None:
+                    self.err("the branches of `if` have types %s and %s" % (ta, tb))
+            elif base_ty(ta) == base_ty(tb):
+                ty = base_ty(ta)
+            else:
+                self.err("the branches of `if` have types %s and %s" % (ta, tb))
+            if ty == "lit":
+                return "if %s then %s else %s" % (c, self.tr(e[2], want)[0], self.tr(e[3], want)[0]), "lit"
+            return "if %s then %s else %s" % (c, self.coerce(e[2], ty), self.coerce(e[3], ty)), ty
+        if k == "let":
+            name, ann, rhs, body = e[1], e[2], e[3], e[4]
+            ty = self.let_type(name, ann, rhs, body)
+            text = self.coerce(rhs, ty) if ty != "lit" else self.tr(rhs)[0]
+            sub = self.sub()
+            sub.env[name] = ty
+            btext, bty = sub.tr(body, want)
+            self.absorb(sub)
+            return "let %s := %s in\n  %s" % (cid(name), text, btext), bty
+        if k == "idx":
+            base = e[1]
+            if base[0] == "path" and base[1] in TABLES_1D:
+                return "nthN %s %s" % (base[1], self.paren(self.coerce(e[2], "nat"))), "u64"
+            self.err("indexing (abstract the indexed place over a parameter)")
+        self.err("node %r" % (k,))
+
+    def sub(self):
+        s = Translator2(self.where, self.env, self.abstractions, self.source, self.hints)
+        s.recording = self.recording
+        return s
+
+    def absorb(self, sub):
+        if self.recording:
+            self.guards.extend(sub.guards)
+            self.calls.extend(sub.calls)
+
+    def let_type(self, name, ann, rhs, body):
+        if ann:
+            ty = rust_type(ann)
+            if ty.startswith("opaque"):
+                self.err("`let %s: %s`" % (name, ann))
+            return ty
+        ty = self.ty_of(rhs)
+        if ty != "lit":
+            return ty
+        found = set()
+        sub = self.sub()
+        sub.env[name] = "lit"
+        me = ("path", name)
+        for x in subexprs2(body):
+            other = None
+            if x[0] == "bin" and x[1] not in ("<<", ">>", "&&", "||"):
+                other = x[3] if x[2] == me else (x[2] if x[3] == me else None)
+            if other is not None:
+                try:
+                    t = sub.ty_of(other)
+                except GenExprError:
+                    continue
+                if t != "lit" and is_int(t):
+                    found.add(t)
+            if x[0] == "struct":
+                for (f, v), (_, t) in zip(sorted(x[2]), sorted(struct_fields(x[1], self.where))):
+                    if v == me:
+                        found.add(t)
+        if name in self.hints:
+            found.add(self.hints[name])
+        if len(found) > 1:
+            self.err("local `%s` is used at the types %s" % (name, ", ".join(sorted(found))))
+        return found.pop() if found else "lit"
+
+    def tr_un(self, e, want):
+        op, x = e[1], e[2]
+        if op == "*":
+            text, ty = self.tr(x, want)
+            return text, base_ty(ty)
+        if op == "&":
+            text, ty = self.tr(x, want)
+            return text, ("&" + ty) if ty in STRUCT_OF_TY else ty
+        if op == "!":
+            text, ty = self.tr(x, want)
+            if ty == "bool":
+                return "negb " + self.paren(text), "bool"
+            if ty == "lit" and want in INT_WIDTH:
+                ty = want
+            if ty in INT_WIDTH and INT_WIDTH[ty] in NOT:
+                return "%s %s" % (NOT[INT_WIDTH[ty]], self.paren(text)), ty
+            if ty == "lit":
+                if self.recording:
+                    self.err("`!%s`: the width of the literal cannot be determined from the context" % text)
+                return "not?? " + self.paren(text), "lit"
+            self.err("`!` on `%s` : %s" % (text, ty))
+        self.err("unary `%s` is outside the vocabulary" % op)
+
+    def tr_cast(self, e):
+        target = e[2]
+        if target not in INT_WIDTH:
+            self.err("cast to `%s`" % target)
+        if e[1][0] == "int" and self.abstracted(e[1]) is None:
+            return self.lit(e[1], target), target
+        text, ty = self.tr(e[1])
+        if ty == "lit":
+            self.err("cast of `%s`, whose type is not determined" % text)
+        if ty == "nat":
+            if target != "usize":
+                if INT_WIDTH[target] not in WRAP:
+                    self.err("cast to %s" % target)
+                return "%s (N.of_nat %s)" % (WRAP[INT_WIDTH[target]], self.paren(text)), target
+            return text, "nat"
+        if ty not in INT_WIDTH:
+            self.err("cast of `%s` : %s" % (text, ty))
+        if INT_WIDTH[target] < INT_WIDTH[ty]:
+            if INT_WIDTH[target] not in WRAP:
+                self.err("narrowing cast to %s" % target)
+            return "%s %s" % (WRAP[INT_WIDTH[target]], self.paren(text)), target
+        return text, target
+
+    def operand_types(self, l, r, want):
+        tl, tr_ = self.ty_of(l), self.ty_of(r)
+        return tl, tr_
+
+    def tr_bin(self, e, want):
+        op, l, r = e[1], e[2], e[3]
+        P = self.paren
+        if op in ("&&", "||"):
+            return "(%s %s %s)" % (P(self.coerce(l, "bool")), op, P(self.coerce(r, "bool"))), "bool"
+        if op in ("<<", ">>"):
+            s = self.as_amount(r)
+            if op == "<<" and l[0] == "int" and self.abstracted(l) is None:
+                if l[1] != 1:
+                    self.err("left shift of the literal %d (only `1 << s` is read as a non-wrapping shift)" % l[1])
+                ty = l[3] or (want if want in INT_WIDTH else "lit")
+                if self.recording:
+                    self.guards.append((s, INT_WIDTH.get(ty)))
+                return "N.shiftl 1 %s" % P(s), ty
+            text, ty = self.tr(l, want)
+            if ty == "lit" and want in INT_WIDTH:
+                ty = want
+            if ty not in INT_WIDTH:
+                self.err("shift of `%s` : %s" % (text, ty))
+            if self.recording:
+                self.guards.append((s, INT_WIDTH[ty]))
+            if op == ">>":
+                return "N.shiftr %s %s" % (P(text), P(s)), ty
+            if ty == "u64" or ty == "usize":
+                return "shl64 %s %s" % (P(text), P(s)), ty
+            return "%s (N.shiftl %s %s)" % (WRAP[INT_WIDTH[ty]], P(text), P(s)), ty
+        tl, tr_ = self.ty_of(l), self.ty_of(r)
+        if op in ("&", "|", "^") and (tl == "bool" or tr_ == "bool"):
+            a, b = P(self.coerce(l, "bool")), P(self.coerce(r, "bool"))
+            if op == "^":
+                return "xorb %s %s" % (a, b), "bool"
+            return "(%s %s %s)" % (a, {"&": "&&", "|": "||"}[op], b), "bool"
+        if op in OP_TRAITS and base_ty(tl) in STRUCT_OF_TY and base_ty(tr_) in STRUCT_OF_TY:
+            return self.tr_operator(op, l, r, tl, tr_)
+        if op in ("==", "!=") and base_ty(tl) in STRUCT_OF_TY and base_ty(tl) == base_ty(tr_):
+            eqb = STRUCT_VOCAB[STRUCT_OF_TY[base_ty(tl)]]["eqb"]
+            t = "%s %s %s" % (eqb, P(self.tr(l)[0]), P(self.tr(r)[0]))
+            return (t if op == "==" else "negb (%s)" % t), "bool"
+        if not (is_int(tl) and is_int(tr_)):
+            self.err("`%s` on operands of types %s and %s" % (op, tl, tr_))
+        ty = self.unify(tl, tr_)
+        if ty is None:
+            self.err("`%s` on operands of types %s and %s" % (op, tl, tr_))
+        if op in COMPARISONS:
+            if ty == "lit":
+                ty = "usize"
+            if ty == "nat":
+                a, b = P(self.coerce(l, "nat")), P(self.coerce(r, "nat"))
+                t = {"==": "Nat.eqb %s %s" % (a, b), "!=": "negb (Nat.eqb %s %s)" % (a, b),
+                     "<": "Nat.ltb %s %s" % (a, b), "<=": "Nat.leb %s %s" % (a, b),
+                     ">": "Nat.ltb %s %s" % (b, a), ">=": "Nat.leb %s %s" % (b, a)}[op]
+                return t, "bool"
+            a, b = P(self.coerce(l, ty)), P(self.coerce(r, ty))
+            t = {"==": "(%s =? %s)" % (a, b), "!=": "negb (%s =? %s)" % (a, b),
+                 "<": "(%s <? %s)" % (a, b), "<=": "(%s <=? %s)" % (a, b),
+                 ">": "(%s <? %s)" % (b, a), ">=": "(%s <=? %s)" % (b, a)}[op]
+            return t, "bool"
+        if ty == "lit" and want and is_int(want):
+            ty = want
+        if ty == "lit":
+            a, b = P(self.tr(l)[0]), P(self.tr(r)[0])
+        else:
+            a, b = P(self.coerce(l, ty)), P(self.coerce(r, ty))
+        if op in ("&", "|", "^"):
+            if ty == "nat":
+                self.err("bitwise `%s` on nat operands" % op)
+            return "%s %s %s" % ({"&": "N.land", "|": "N.lor", "^": "N.lxor"}[op], a, b), ty
+        if op in ("+", "-", "*"):
+            return ("(%s %s %s)%s" % (a, op, b, "%nat" if ty == "nat" else "")), ty
+        if op in ("%", "/"):
+            if ty == "nat":
+                self.err("`%s` on nat operands" % op)
+            return "(%s %s %s)" % (a, {"%": "mod", "/": "/"}[op], b), ty
+        self.err("binary `%s` is outside the vocabulary" % op)
+
+    def tr_operator(self, op, l, r, tl, tr_):
+        trait, method = OP_TRAITS[op]
+        st = STRUCT_OF_TY[base_ty(tl)]
+
+        def rust(t):
+            return ("&" if t.startswith("&") else "") + STRUCT_OF_TY[base_ty(t)]
+        header = "impl %s<%s> for %s" % (trait, rust(tr_), rust(tl))
+        return self.call_generated((STRUCT_VOCAB[st]["file"], header, method), [l, r], "`%s`" % op)
+
+    def call_generated(self, key, args, what):
+        reg = REGISTRY.get(key)
+        if reg is None:
+            self.err("%s resolves to %s: %s, which is not translated (or is translated later)" % (
+                what, key[0], fn_label(key[1], key[2])))
+        if len(args) != len(reg["params"]):
+            self.err("%s: %d arguments for %s" % (what, len(args), reg["name"]))
+        texts = [self.paren(self.coerce(a, t)) for a, t in zip(args, reg["params"])]
+        if self.recording:
+            self.calls.append(reg["name"])
+        return (" ".join([reg["name"]] + texts)), reg["ret"]
+
+    def tr_call(self, e, want):
+        f, args = e[1], e[2]
+        if f[0] != "path":
+            self.err("call of a computed function")
+        name = f[1]
+        mm = MINMAX.get(name) or (name if name in self.source.cmp_imports else None)
+        if mm and len(args) == 2:
+            ta, tb = self.ty_of(args[0], want), self.ty_of(args[1], want)
+            ty = self.unify(ta, tb) if is_int(ta) and is_int(tb) else None
+            if ty is None:
+                self.err("%s on operands of types %s and %s" % (name, ta, tb))
+            if ty == "lit":
+                ty = want if want and is_int(want) else "usize"
+            mod = "Nat" if ty == "nat" else "N"
+            return "%s.%s %s %s" % (mod, mm, self.paren(self.coerce(args[0], ty)), self.paren(self.coerce(args[1], ty))), ty
+        if "::" in name:
+            st, _, fn = name.rpartition("::")
+            if st in STRUCT_VOCAB:
+                return self.call_generated((STRUCT_VOCAB[st]["file"], "impl " + st, fn), list(args), "`%s`" % name)
+        if self.env.get(name) == "fun2" and len(args) == 2:
+            return "%s %s %s" % (cid(name), self.paren(self.coerce(args[0], "u64")), self.paren(self.coerce(args[1], "u64"))), "u64"
+        self.err("call of `%s` is outside the vocabulary" % name)
+
+    def tr_mcall(self, e, want):
+        recv, name, args = e[1], e[2], e[3]
+        text, ty = self.tr(recv, None)
+        if base_ty(ty) in STRUCT_OF_TY:
+            st = STRUCT_OF_TY[base_ty(ty)]
+            return self.call_generated((STRUCT_VOCAB[st]["file"], "impl " + st, name), [recv] + list(args),
+                                       "method `%s`" % name)
+        if ty.startswith("slice:") and name == "len" and not args:
+            return "N.of_nat (length %s)" % self.paren(text), "usize"
+        if ty in INT_WIDTH:
+            if name == "count_ones" and not args:
+                return "popcount " + self.paren(text), "u32"
+            if name == "trailing_zeros" and not args:
+                return "Canon.trailing_zeros " + self.paren(text), "u32"
+            if name == "wrapping_add" and len(args) == 1 and INT_WIDTH[ty] in WRAP:
+                return "%s (%s + %s)" % (WRAP[INT_WIDTH[ty]], self.paren(text), self.paren(self.coerce(args[0], ty))), ty
+            if name == "saturating_sub" and len(args) == 1:
+                return "(%s - %s)" % (self.paren(text), self.paren(self.coerce(args[0], ty))), ty
+        self.err("method `%s` on `%s` : %s is outside the vocabulary" % (name, text, ty))
+
+
+def struct_fields(st, where):
+    """[(field, type)] of a struct, read from its `struct` item and checked against the Gallina record"""
+    voc = STRUCT_VOCAB[st]
+    src = SOURCES2[voc["file"]]
+    if st not in src.structs:
+        fail("%s: struct %s not found in %s" % (where, st, voc["file"]))
+    fields = [(f, rust_type(t)) for f, t in src.structs[st]]
+    if [f for f, _ in fields] != [f for f, _ in voc["proj"]]:
+        fail("%s: the fields of struct %s are %s (the Gallina record has %s, in this order: the derived order and "
+             "equality depend on it)" % (where, st, [f for f, _ in fields], [f for f, _ in voc["proj"]]))
+    return fields
+
+
+# ----------------------------------------------------------------------------------------------
+# part 2: regions, targets, definitions
+#
+# path elements:  a condition text / "else" (as in part 1)   "closure:<method>"  (the block of the closure passed to
+#                 the unique call of that method in the current region)
+# targets (in addition to assign: let: tail callarg: of part 1; `#k` selects the k-th candidate in source order,
+# a trailing `/closure` takes the unique closure inside the selected expression):
+#   value              the whole region as one expression (lets, if/else, `if c { return v; }`, final value)
+#   condassign:<lhs>   `if c { lhs = e; }`  ->  if c then e else lhs   (compound assignments are expanded)
+#   ifcond:<stmt>      the condition of the `if` (without else) whose body is exactly the statement <stmt>
+#   assert:<k>         the argument of the k-th assert! / debug_assert! of the region
+#   mcallarg:<m>:<k>   argument k of the unique call of method m in the region
+
+def S2(name, file, impl, fn, path, target, params=(), abstractions=None, guard=False, hints=None):
+    return {"name": name, "file": file, "impl": impl, "fn": fn, "path": tuple(path), "target": target,
+            "params": list(params), "abs": abstractions or {}, "guard": guard, "hints": hints or {}}
+
+
+class Fn2(Fn):
+    def __init__(self, source, key):
+        info = source.fns[key]
+        self.info = info
+        self.source = source
+        self.impl = key[0]
+        self.file, self.name, self.src = source.rel, key[1], info["body"]
+        self.where = "%s: %s" % (source.rel, fn_label(key[0], key[1]))
+        self.toks = tokenize(self.src, self.where)
+        self.body = parse_block(self.toks, self.where)
+
+
+def stmt_expr(fn, s):
+    """parsed expression of an expression / return statement, memoized on the statement"""
+    if not hasattr(s, "ast"):
+        toks = s.expr if s.kind == "expr" else s.rhs
+        s.ast = parse_expr(toks, "%s: `%s`" % (fn.where, stmt_text(fn, s)))
+    return s.ast
+
+
+def block_closures(fn, s):
+    """closures with a block body inside an expression statement: [(method name or '', closure)]"""
+    out = []
+    if s.kind != "expr":
+        return out
+    try:
+        e = stmt_expr(fn, s)
+    except GenExprError:
+        return out
+    for x in subexprs2(e):
+        if x[0] in ("mcall", "call"):
+            args = x[3] if x[0] == "mcall" else x[2]
+            for a in args:
+                if a[0] == "closure" and a[2][0] == "block":
+                    out.append((x[2] if x[0] == "mcall" else "", a))
+    return out
+
+
+def for_binder(fn, s, binders):
+    """`for x in <slice parameter>`: x has the element type"""
+    h = s.head
+    if len(h) >= 3 and h[0].kind == "id" and h[1].text == "in":
+        rest = h[2:]
+        if rest and rest[0].text == "&":
+            rest = rest[1:]
+        if len(rest) == 1 and rest[0].kind == "id":
+            ty = dict(binders).get(rest[0].text, "")
+            if ty.startswith("slice:"):
+                return [(h[0].text, ty[6:])]
+    return []
+
+
+def find_region2(fn, path):
+    """-> (block, scope lets, binders [(name, type)])"""
+    block, scope = fn.body, []
+    binders = list(fn.info["params"])
+    done = []
+    for sel in path:
+        hits = []
+        if sel.startswith("closure:"):
+            meth = sel[len("closure:"):]
+
+            def search(b, sc, bd):
+                sc = list(sc)
+                for s in b:
+                    if s.kind == "let":
+                        sc.append(s)
+                    elif s.kind == "for":
+                        search(s.body, sc, bd + for_binder(fn, s, bd))
+                    elif s.kind == "expr":
+                        for m, c in block_closures(fn, s):
+                            if m == meth:
+                                cb = [(p, rust_type(t)) for p, t in zip(c[1], c[3]) if t]
+                                hits.append((c[2][1], list(sc), bd + cb, s))
+        elif re.fullmatch(r"if#[0-9]+", sel):
+            ifs = []
+
+            def search(b, sc, bd):
+                sc = list(sc)
+                for s in b:
+                    if s.kind == "let":
+                        sc.append(s)
+                    elif s.kind == "for":
+                        search(s.body, sc, bd + for_binder(fn, s, bd))
+                    elif s.kind == "if":
+                        ifs.append((s.branches[0][1], list(sc), bd, s))
+            search(block, scope, binders)
+            k = int(sel[3:])
+            if k >= len(ifs):
+                fail("%s: no `if` statement number %d below [%s]" % (fn.where, k, ", ".join(done)))
+            hits.append(ifs[k])
+
+            def search(b, sc, bd):
+                pass
+        else:
+            want = norm_str(sel, fn.where) if sel != "else" else "else"
+
+            def search(b, sc, bd):
+                sc = list(sc)
+                for s in b:
+                    if s.kind == "let":
+                        sc.append(s)
+                    elif s.kind == "for":
+                        search(s.body, sc, bd + for_binder(fn, s, bd))
+                    elif s.kind == "if":
+                        for cond, body in s.branches:
+                            if cond_text(cond) == want:
+                                hits.append((body, list(sc), bd, s))
+        search(block, scope, binders)
+        if len(hits) != 1:
+            fail("%s: %d regions `%s` found below [%s] (exactly one expected) - the structure of the function has "
+                 "changed" % (fn.where, len(hits), sel, ", ".join(done)))
+        block, scope, binders, st = hits[0]
+        if st.kind == "if" and not sel.startswith("if#"):
+            st.selected = True
+        done.append(sel)
+    return block, scope, binders
+
+
+def flatten2(fn, block, scope, binders):
+    """statements of a region with the lets and binders visible at each of them; `for` bodies are entered"""
+    out = []
+    sc = list(scope)
+    for s in block:
+        out.append((s, list(sc), binders))
+        if s.kind == "let":
+            sc.append(s)
+        elif s.kind == "for":
+            out.extend(flatten2(fn, s.body, sc, binders + for_binder(fn, s, binders)))
+    return out
+
+
+def mark_block(block):
+    for s in block:
+        s.covered = True
+        if s.kind == "if":
+            for _, b in s.branches:
+                mark_block(b)
+        elif s.kind == "for":
+            mark_block(s.body)
+
+
+def block_value(fn, block, where):
+    """the value of a statement block as one expression"""
+    if not block:
+        fail("%s: block without a value" % where)
+    s, rest = block[0], block[1:]
+    w = "%s: `%s`" % (where, stmt_text(fn, s))
+    if s.kind == "let":
+        if s.name is None or s.rhs is None or not rest:
+            fail("%s: `let` outside the translated fragment" % w)
+        return ("let", s.name, s.ann, parse_expr(s.rhs, w), block_value(fn, rest, where))
+    if s.kind == "if":
+        has_else = s.branches[-1][0] is None
+        if has_else:
+            if rest:
+                fail("%s: statements after an if/else used as a value" % w)
+            e = block_value(fn, s.branches[-1][1], where)
+            for cond, body in reversed(s.branches[:-1]):
+                e = ("if", parse_expr(cond, w), block_value(fn, body, where), e)
+            return e
+        if len(s.branches) == 1 and len(s.branches[0][1]) == 1 and s.branches[0][1][0].kind == "return" and rest:
+            r = s.branches[0][1][0]
+            return ("if", parse_expr(s.branches[0][0], w), parse_expr(r.rhs, w), block_value(fn, rest, where))
+        fail("%s: only `if c { return v; }` and if/else chains are read as values" % w)
+    if s.kind == "expr" and s.tail and not rest:
+        return stmt_expr(fn, s)
+    if s.kind == "return" and not rest:
+        return parse_expr(s.rhs, w)
+    if s.kind == "macro" and s.name in ("assert", "debug_assert", "assert_eq", "debug_assert_eq"):
+        return block_value(fn, rest, where)
+    fail("%s: statement outside the fragment that is read as a value" % w)
+
+
+def split_target(target):
+    closure = target.endswith("/closure")
+    if closure:
+        target = target[:-len("/closure")]
+    k = None
+    m = re.search(r"#([0-9]+)$", target)
+    if m:
+        k = int(m.group(1))
+        target = target[:m.start()]
+    return target, k, closure
+
+
+def pick2(fn, spec, cands, what, k):
+    if k is not None:
+        if k >= len(cands):
+            fail("%s [%s]: only %d candidates for %s `%s`" % (fn.where, ", ".join(spec["path"]), len(cands), what,
+                                                             spec["target"]))
+        return cands[k]
+    if len(cands) != 1:
+        fail("%s [%s]: %d candidates for %s `%s` (exactly one expected)%s" % (
+            fn.where, ", ".join(spec["path"]), len(cands), what, spec["target"],
+            "".join("\n    " + stmt_text(fn, c[0]) for c in cands)))
+    return cands[0]
+
+
+def expand_assign(s, w):
+    rhs = parse_expr(s.rhs, w)
+    if s.op == "=":
+        return rhs
+    if s.op in ("&=", "|=", "^=", "+=", "-=", "<<=", ">>="):
+        return ("bin", s.op[:-1], parse_expr(s.lhs, w), rhs)
+    fail("%s: compound assignment `%s` is outside the vocabulary" % (w, s.op))
+
+
+def find_target2(fn, spec, block, scope, binders):
+    """-> (expr AST, [covered statements], scope at the statement, binders at the statement)"""
+    target, k, want_closure = split_target(spec["target"])
+    where = "%s [%s]" % (fn.where, ", ".join(spec["path"]))
+    flat = flatten2(fn, block, scope, binders)
+    want_ty = None
+
+    def W(s):
+        return "%s: `%s`" % (where, stmt_text(fn, s))
+    if target == "value":
+        e, cov, sc, bd = block_value(fn, block, where), list(block), scope, binders
+        mark_block(block)
+    elif target.startswith("valuefrom:"):
+        name = target[len("valuefrom:"):]
+        idx = [i for i, s in enumerate(block) if s.kind == "let" and s.name == name]
+        if len(idx) != 1:
+            fail("%s: %d statements `let %s` (exactly one expected)" % (where, len(idx), name))
+        rest = block[idx[0]:]
+        e, cov, sc, bd = block_value(fn, rest, where), rest, scope + [s for s in block[:idx[0]] if s.kind == "let"], binders
+        mark_block(rest)
+    elif target.startswith("assign:"):
+        lhs = norm_str(target[len("assign:"):], where)
+        s, sc, bd = pick2(fn, spec, [c for c in flat if c[0].kind == "assign" and norm(c[0].lhs) == lhs], "assignment", k)
+        e, cov = expand_assign(s, W(s)), [s]
+    elif target.startswith("condassign:"):
+        lhs = norm_str(target[len("condassign:"):], where)
+        cands = [c for c in flat if c[0].kind == "if" and len(c[0].branches) == 1 and len(c[0].branches[0][1]) == 1
+                 and c[0].branches[0][1][0].kind == "assign" and norm(c[0].branches[0][1][0].lhs) == lhs]
+        s, sc, bd = pick2(fn, spec, cands, "conditional assignment", k)
+        a = s.branches[0][1][0]
+        e = ("if", parse_expr(s.branches[0][0], W(s)), expand_assign(a, W(s)), parse_expr(a.lhs, W(s)))
+        cov = [s, a]
+    elif target.startswith("ifcond:"):
+        body = norm_str(target[len("ifcond:"):], where)
+        cands = [c for c in flat if c[0].kind == "if" and len(c[0].branches) == 1 and len(c[0].branches[0][1]) == 1
+                 and norm(c[0].branches[0][1][0].toks) == body]
+        s, sc, bd = pick2(fn, spec, cands, "condition", k)
+        e, cov = parse_expr(s.branches[0][0], W(s)), [s]
+        s.cond_covered = True
+    elif target.startswith("let:"):
+        name = target[len("let:"):]
+        cands = [c for c in flat if c[0].kind == "let" and c[0].name == name]
+        if not cands:
+            outer = [s for s in scope if s.name == name]
+            cands = [(outer[-1], scope[:scope.index(outer[-1])], binders)] if outer else []
+        s, sc, bd = pick2(fn, spec, cands, "local", k)
+        if s.rhs is None:
+            fail("%s: no initializer" % W(s))
+        e, cov = parse_expr(s.rhs, W(s)), [s]
+        if s.ann and not want_closure:
+            want_ty = rust_type(s.ann)
+    elif target == "tail":
+        s, sc, bd = pick2(fn, spec, [c for c in flat if c[0].kind == "expr" and c[0].tail], "tail expression", k)
+        e, cov = stmt_expr(fn, s), [s]
+    elif target.startswith("assert:"):
+        cands = [c for c in flat if c[0].kind == "macro" and c[0].name in ("assert", "debug_assert")]
+        s, sc, bd = pick2(fn, spec, cands, "assertion", int(target[len("assert:"):]))
+        e, cov = parse_expr(s.args, W(s)), [s]
+    elif target.startswith("mcallarg:") or target.startswith("callarg:"):
+        kind, f, idx = target.split(":")
+        cands = []
+        for s, sc, bd in flat:
+            if s.kind not in ("expr", "return") or (s.kind == "return" and not s.rhs):
+                continue
+            try:
+                ex = stmt_expr(fn, s)
+            except GenExprError:
+                continue
+            for x in subexprs2(ex):
+                if kind == "mcallarg" and x[0] == "mcall" and x[2] == f:
+                    cands.append((s, sc, bd, x[3]))
+                if kind == "callarg" and x[0] == "call" and x[1] == ("path", f):
+                    cands.append((s, sc, bd, x[2]))
+        s, sc, bd, args = pick2(fn, spec, cands, "call", k)
+        if int(idx) >= len(args):
+            fail("%s: the call of %s has no argument %s" % (W(s), f, idx))
+        e, cov = args[int(idx)], [s]
+    else:
+        fail("internal: unknown target kind %s" % target)
+    if want_closure:
+        cl = [x for x in subexprs2(e) if x[0] == "closure"]
+        if len(cl) != 1:
+            fail("%s: %d closures in the selected expression (exactly one expected)" % (where, len(cl)))
+        e = cl[0]
+    if not target.startswith("ifcond:"):
+        for s in cov:
+            s.covered = True
+    return e, cov, sc, bd, want_ty
+
+
+def parse_param(p):
+    name, _, ty = p.partition(":")
+    return name, (ty or None)
+
+
+def build_definition2(fn, spec):
+    where0 = "%s [%s]" % (fn.where, ", ".join(spec["path"]))
+    block, scope, binders = find_region2(fn, spec["path"])
+    expr, cov, sc, bd, want_ty = find_target2(fn, spec, block, scope, binders)
+    stmt = cov[0]
+    where = "%s: `%s`" % (where0, stmt_text(fn, stmt))
+    abstractions = [(parse_expr(tokenize(k, where), where), v) for k, v in spec["abs"].items()]
+    whole = spec["target"] == "value" and not spec["path"]
+    known = dict(bd)
+    params = []
+    if whole and not spec["params"]:
+        params = list(fn.info["params"])
+    for p in spec["params"]:
+        name, ty = parse_param(p)
+        if ty == "ret":
+            ty = fn.info["ret"]
+        if ty == "nat":
+            if name in known and known[name] != "usize":
+                fail("%s: parameter %s is a nat in the specification but a %s in the source" % (where, name, known[name]))
+        elif ty is None:
+            if name not in known:
+                fail("%s: the type of parameter %s of %s is not declared by the source (signature, closure parameter, "
+                     "loop over a slice): give it in the specification" % (where, name, spec["name"]))
+            ty = known[name]
+        params.append((name, ty))
+    want = want_ty
+    if expr[0] == "closure":
+        body = expr[2]
+        if body[0] == "block":
+            mark_block(body[1])
+            body = block_value(fn, body[1], where)
+        n = 0
+        fv = free_vars2(body, abstractions)
+        for p, t in zip(expr[1], expr[3]):
+            if p != "_" and p not in fv:
+                continue
+            if p == "_":
+                n += 1
+                params.append(("_unused%d" % n, "u64"))
+            else:
+                if not t:
+                    fail("%s: closure parameter %s has no type annotation" % (where, p))
+                params.append((p, rust_type(t)))
+        expr = body
+    elif whole:
+        want = fn.info["ret"]
+    for name, ty in params:
+        if ty.startswith("opaque"):
+            fail("%s: parameter %s has the type %s, which is outside the vocabulary" % (where, name, ty[7:]))
+    pnames = {p for p, _ in params}
+    for _, v in abstractions:
+        if v not in pnames:
+            fail("%s: abstraction parameter %s is not a parameter of %s" % (where, v, spec["name"]))
+    needed = []
+
+    def visit(e, visible):
+        for v in sorted(free_vars2(e, abstractions)):
+            if v in pnames or v in KNOWN_GLOBALS:
+                continue
+            defs = [s for s in visible if s.name == v]
+            if not defs:
+                fail("%s: `%s` is neither a parameter of %s, a local of the region nor a known constant" % (
+                    where, v, spec["name"]))
+            d = defs[-1]
+            if d in needed:
+                continue
+            if d.rhs is None:
+                fail("%s: local `%s` has no initializer" % (where, v))
+            needed.append(d)
+            d.ast2 = parse_expr(d.rhs, "%s: `%s`" % (where0, stmt_text(fn, d)))
+            visit(d.ast2, visible[:visible.index(d)])
+    visit(expr, sc)
+    for s in sc:
+        if s.kind == "let" and s.name in pnames:
+            s.covered = True
+            ent = (fn.file, fn_label(fn.impl, fn.name), stmt_text(fn, s))
+            if ent not in OVERRIDDEN2:
+                OVERRIDDEN2.append(ent)
+    order = [s for s in sc if s in needed]
+    for d in reversed(order):
+        expr = ("let", d.name, d.ann, d.ast2, expr)
+        d.covered = True
+    tr = Translator2(where, dict(params), abstractions, fn.source, spec["hints"])
+    body, ty = tr.tr(expr, want)
+    if whole:
+        if not (ty == want or ty == "lit" and is_int(want)):
+            fail("%s: the body has type %s, the declared return type is %s" % (where, ty, want))
+        ty = want
+    cty = coq_type2(ty, where)
+    binders_text = " ".join("(%s : %s)" % (cid(p), coq_type2(t, where)) for p, t in params)
+    text = "Definition %s%s : %s :=\n  %s." % (spec["name"], (" " + binders_text) if binders_text else "", cty, body)
+    guard_text = None
+    if spec["guard"]:
+        if not tr.guards:
+            fail("%s: a shift check is requested for %s but the statement contains no shift" % (where, spec["name"]))
+        if any(w is None for _, w in tr.guards):
+            fail("%s: the width of a shifted value cannot be determined" % where)
+        if "let " in body:
+            fail("%s: shift checks of a definition with locals are outside the fragment" % where)
+        g = " && ".join("(%s <? %d)" % (Translator.paren(s), w) for s, w in tr.guards)
+        guard_text = "Definition %s_shift_ok%s : bool :=\n  %s." % (
+            spec["name"], (" " + binders_text) if binders_text else "", g)
+    if whole:
+        key = (fn.file, fn.impl, fn.name)
+        REGISTRY[key] = {"name": spec["name"], "params": [t for _, t in params], "ret": ty}
+    return {"name": spec["name"], "text": text, "guard": guard_text, "file": spec["file"], "impl": fn.impl, "fn": fn.name,
+            "path": spec["path"],
+            "stmt": None if spec["target"] == "value" else
+            (stmt_text(fn, stmt) + " .. to the end of the body") if spec["target"].startswith("valuefrom:") else stmt_text(fn, stmt),
+            "lets": [stmt_text(fn, d) for d in order], "type": ty, "params": params, "calls": list(dict.fromkeys(tr.calls)),
+            "shifts": list(tr.guards), "target": spec["target"],
+            "src": " ".join(fn.src.split()) if spec["target"] == "value" and not spec["path"] else None}
+
+
+# (file, fn label, local) -> reason ; (file, fn label, normalized statement prefix) -> reason
+SKIPPED_LETS2 = {}
+SKIPPED_STMTS2 = {}
+# (file, fn label) -> reason: functions of the four files that are not translated at all
+SKIPPED_FNS2 = {}
+OVERRIDDEN2 = []
+
+
+def check_coverage2(fn):
+    """every let / assignment / non-trivial expression statement / value-returning `return` / `if` condition of a
+    translated function is used by a generated definition or listed (with the reason) in SKIPPED_LETS2 /
+    SKIPPED_STMTS2.  Conditions that only select a region (path elements) count as used."""
+    label = fn_label(fn.impl, fn.name)
+    used = set()
+
+    def skipped(s):
+        t = norm(s.toks)
+        for (f, l, prefix), _ in SKIPPED_STMTS2.items():
+            if f == fn.file and l == label and t.startswith(norm_str(prefix, fn.where)):
+                used.add((f, l, prefix))
+                return True
+        return False
+
+    def walk(b):
+        for s in b:
+            where = "%s: `%s`" % (fn.where, stmt_text(fn, s))
+            if s.covered and s.kind != "if":
+                continue
+            if s.kind == "let":
+                if (fn.file, label, s.name) in SKIPPED_LETS2:
+                    used.add((fn.file, label, s.name))
+                    continue
+                fail("%s: local is not accounted for by any generated definition" % where)
+            elif s.kind == "assign":
+                if not skipped(s):
+                    fail("%s: assignment is not accounted for by any generated definition" % where)
+            elif s.kind in ("expr", "return"):
+                if s.kind == "return" and not s.rhs:
+                    continue
+                if skipped(s):
+                    continue
+                e = stmt_expr(fn, s)
+                bc = block_closures(fn, s)
+                if bc:
+                    for _, c in bc:
+                        walk(c[2][1])
+                elif not trivial_expr2(e):
+                    fail("%s: statement is not accounted for by any generated definition" % where)
+            elif s.kind == "for":
+                walk(s.body)
+            elif s.kind == "if":
+                if s.covered:
+                    continue
+                if not getattr(s, "cond_covered", False) and not getattr(s, "selected", False) and not skipped(s):
+                    for cond, _ in s.branches:
+                        if cond is not None and not trivial_expr2(parse_expr(cond, where)):
+                            fail("%s: the condition `%s` is not accounted for by any generated definition" % (where, norm(cond)))
+                for _, body in s.branches:
+                    walk(body)
+    walk(fn.body)
+    return used
+
+
+def trivial_expr2(e):
+    if e[0] in ("int", "path"):
+        return True
+    if e[0] == "un" and e[1] in ("*", "&"):
+        return trivial_expr2(e[2])
+    if e[0] == "field":
+        return trivial_expr2(e[1])
+    if e[0] == "call":
+        return all(trivial_expr2(a) for a in e[2])
+    if e[0] == "mcall":
+        return trivial_expr2(e[1]) and all(trivial_expr2(a) for a in e[3])
+    return False
+
+
+# ----------------------------------------------------------------------------------------------
+# part 2: what to translate
+
+IC, IE = "impl Cube", "impl Ecube"
+LC, LLC = "level_complexity", "large_level_complexity"
+
+
+def _ops(prefix, file, trait, method, ty):
+    """the four (two for Not) operator impls, each translated on its own"""
+    out = []
+    if trait == "Not":
+        for s, sn in ((ty, "val"), ("&" + ty, "ref")):
+            out.append(S2("%s_%s" % (prefix, sn), file, "impl Not for %s" % s, method, [], "value"))
+        return out
+    for s, sn in ((ty, "val"), ("&" + ty, "ref")):
+        for r, rn in ((ty, "val"), ("&" + ty, "ref")):
+            out.append(S2("%s_%s_%s" % (prefix, sn, rn), file, "impl %s<%s> for %s" % (trait, r, s), method, [], "value"))
+    return out
+
+
+SPECS2 = [
+    # ---- sop/cube.rs
+    S2("gx_cube_one", CUBE, IC, "one", [], "value"),
+    S2("gx_cube_zero", CUBE, IC, "zero", [], "value"),
+    S2("gx_cube_is_zero", CUBE, IC, "is_zero", [], "value"),
+    S2("gx_cube_is_one", CUBE, IC, "is_one", [], "value"),
+    S2("gx_cube_is_constant", CUBE, IC, "is_constant", [], "value"),
+    S2("gx_cube_nth_var", CUBE, IC, "nth_var", [], "value", guard=True),
+    S2("gx_cube_nth_var_inv", CUBE, IC, "nth_var_inv", [], "value", guard=True),
+    S2("gx_cube_minterm", CUBE, IC, "minterm", [], "value"),
+    S2("gx_cube_value", CUBE, IC, "value", [], "value"),
+    S2("gx_cube_from_mask", CUBE, IC, "from_mask", [], "value"),
+    S2("gx_cube_from_vars_pos_init", CUBE, IC, "from_vars", [], "let:pos"),
+    S2("gx_cube_from_vars_pos_step", CUBE, IC, "from_vars", [], "assign:pos", ["pos:u32", "p"], guard=True),
+    S2("gx_cube_from_vars_neg_init", CUBE, IC, "from_vars", [], "let:neg"),
+    S2("gx_cube_from_vars_neg_step", CUBE, IC, "from_vars", [], "assign:neg", ["neg:u32", "p"], guard=True),
+    S2("gx_cube_from_vars_finish", CUBE, IC, "from_vars", [], "valuefrom:c", ["pos:u32", "neg:u32"]),
+    S2("gx_cube_num_lits", CUBE, IC, "num_lits", [], "value"),
+    S2("gx_cube_num_gates", CUBE, IC, "num_gates", [], "value"),
+    S2("gx_cube_and", CUBE, IC, "and", [], "value"),
+] + _ops("gx_cube_bitand", CUBE, "BitAnd", "bitand", "Cube") + [
+    S2("gx_cube_intersects", CUBE, IC, "intersects", [], "value"),
+    S2("gx_cube_implies", CUBE, IC, "implies", [], "value"),
+    S2("gx_cube_all_mx", CUBE, IC, "all", [], "let:mx", ["vars"], guard=True),
+    # ---- sop/ecube.rs
+    S2("gx_ecube_one", ECUBE, IE, "one", [], "value"),
+    S2("gx_ecube_zero", ECUBE, IE, "zero", [], "value"),
+    S2("gx_ecube_is_zero", ECUBE, IE, "is_zero", [], "value"),
+    S2("gx_ecube_is_one", ECUBE, IE, "is_one", [], "value"),
+    S2("gx_ecube_nth_var", ECUBE, IE, "nth_var", [], "value", guard=True),
+    S2("gx_ecube_nth_var_inv", ECUBE, IE, "nth_var_inv", [], "value", guard=True),
+    S2("gx_ecube_value", ECUBE, IE, "value", [], "value"),
+    S2("gx_ecube_from_vars_init", ECUBE, IE, "from_vars", [], "let:v"),
+    S2("gx_ecube_from_vars_step", ECUBE, IE, "from_vars", [], "assign:v", ["v:u32", "p"], guard=True),
+    S2("gx_ecube_from_vars_finish", ECUBE, IE, "from_vars", [], "tail", ["v:u32", "xnor"]),
+    S2("gx_ecube_num_lits", ECUBE, IE, "num_lits", [], "value"),
+    S2("gx_ecube_num_gates", ECUBE, IE, "num_gates", [], "value"),
+    S2("gx_ecube_all_mx", ECUBE, IE, "all", [], "let:mx", ["vars"], guard=True),
+] + _ops("gx_ecube_not", ECUBE, "Not", "not", "Ecube") + _ops("gx_ecube_bitxor", ECUBE, "BitXor", "bitxor", "Ecube") + [
+    # ---- bdd.rs
+    S2("gx_bdd_level_lt6", BDD, "", LC, [], "assert:0", ["level:nat"]),
+    S2("gx_bdd_level_ge1", BDD, "", LC, [], "assert:1", ["level:nat"]),
+    S2("gx_bdd_shift", BDD, "", LC, [], "let:shift", ["level:nat"]),
+    S2("gx_bdd_mask", BDD, "", LC, [], "let:mask", ["shift:usize"]),
+    S2("gx_bdd_normalize", BDD, "", LC, [], "condassign:lut", ["lut:u64"]),
+    S2("gx_bdd_window", BDD, "", LC, [], "assign:lut", ["lut:u64", "mask:u64"]),
+    S2("gx_bdd_nonzero", BDD, "", LC, [], "ifcond:luts.push(lut);", ["lut:u64"]),
+    S2("gx_bdd_advance", BDD, "", LC, [], "condassign:c", ["level:nat", "shift:usize", "c:u64"]),
+    S2("gx_bdd_mid_shift", BDD, "", LC, [], "let:mid_shift", ["level:nat"]),
+    S2("gx_bdd_mid_mask", BDD, "", LC, [], "let:mid_mask", ["mid_shift:usize"]),
+    S2("gx_bdd_keep", BDD, "", LC, ["closure:retain"], "value", ["mid_shift:usize", "mid_mask:u64", "c"]),
+    S2("gx_bdd_large_level_ge6", BDD, "", LLC, [], "assert:0", ["level:nat"]),
+    S2("gx_bdd_large_nb", BDD, "", LLC, [], "let:nb", ["level:nat"]),
+    S2("gx_bdd_large_norm_test", BDD, "", LLC, [], "ifcond:for t in &mut c { *t = !*t; }", ["w:u64"], {"c[0]": "w"}),
+    S2("gx_bdd_large_not", BDD, "", LLC, ["if#0"], "assign:*t", ["t:u64"]),
+    S2("gx_bdd_large_nonzero", BDD, "", LLC, [], "ifcond:luts.push(c);/closure"),
+    S2("gx_bdd_large_mid_nb", BDD, "", LLC, [], "let:mid_nb", ["level:nat"]),
+    S2("gx_bdd_large_opp", BDD, "", LLC, ["closure:retain"], "let:opp/closure", ["a:u64", "b:u64"], {"t.0": "a", "t.1": "b"}),
+    S2("gx_bdd_large_lz", BDD, "", LLC, ["closure:retain"], "let:lz/closure"),
+    S2("gx_bdd_large_hz", BDD, "", LLC, ["closure:retain"], "let:hz/closure"),
+    S2("gx_bdd_large_copy", BDD, "", LLC, ["closure:retain"], "ifcond:return false;#1", ["opp:bool", "lz:bool", "hz:bool"]),
+    # ---- canonization.rs
+    S2("gx_gray_end", CANON, "", "generate_gray_flips", [], "let:end", ["nb_bits:nat"]),
+    S2("gx_gray_pred", CANON, "", "generate_gray_flips", [], "let:pred", ["i:usize"]),
+    S2("gx_gray_code", CANON, "", "generate_gray_flips", [], "let:gray", ["i:usize"]),
+    S2("gx_gray_flip", CANON, "", "generate_gray_flips", [], "mcallarg:push:0", ["i:usize"]),
+    S2("gx_gray_rollback", CANON, "", "generate_gray_flips", ["rollback"], "mcallarg:push:0", ["nb_bits:nat"]),
+]
+for _p, _f in (("gx_n_res", "n_canonization_res"), ("gx_npn_res", "npn_canonization_res")):
+    SPECS2 += [
+        S2(_p + "_ind_init", CANON, "", _f, [], "let:ind"),
+        S2(_p + "_cur_init", CANON, "", _f, [], "let:cur_flip"),
+        S2(_p + "_flip", CANON, "", _f, [], "assign:cur_flip#0", ["cur_flip:ret", "flip"], guard=True),
+        S2(_p + "_out", CANON, "", _f, [], "assign:cur_flip#1", ["num_vars:nat", "cur_flip:ret"], guard=True),
+        S2(_p + "_hit", CANON, "", _f, [], "ifcond:return cur_flip;", ["ind:usize", "best_ind"]),
+        S2(_p + "_next_ind", CANON, "", _f, [], "assign:ind", ["ind:usize"]),
+    ]
+SPECS2 += [
+    S2("gx_p_ind_best_init", CANON, "", "p_canonization_ind", [], "let:best_ind", ["all_swaps"]),
+    S2("gx_n_ind_best_init", CANON, "", "n_canonization_ind", [], "let:best_ind", ["all_flips"]),
+    S2("gx_npn_ind_best_init", CANON, "", "npn_canonization_ind", [], "let:best_ind", ["all_swaps", "all_flips"]),
+]
+
+_CONTAINER = "container of the results (a list in the model)"
+SKIPPED_LETS2.update({
+    (BDD, "fn " + LC, "luts"): _CONTAINER,
+    (BDD, "fn " + LLC, "luts"): _CONTAINER,
+    (BDD, "fn " + LLC, "c"): "slice copy table[i..i + nb].to_vec() (firstn/skipn in the model: `groups`)",
+    (BDD, "fn " + LLC, "h"): "sub-slice &c[mid_nb..] (skipn in the model)",
+    (BDD, "fn " + LLC, "l"): "sub-slice &c[..mid_nb] (firstn in the model)",
+    (CANON, "fn generate_gray_flips", "flips"): _CONTAINER,
+    (CANON, "fn npn_canonization_res", "swp"): "index of the adjacent transposition (perm_swap in the model)",
+})
+SKIPPED_STMTS2.update({
+    (CUBE, IC + " :: fn all", "(0..mx)"): "iterator chain (flat_map / map / filter over ranges; lists in the model)",
+    (ECUBE, IE + " :: fn all", "(0..mx)"): "iterator chain (flat_map / map over ranges; lists in the model)",
+    (BDD, "fn " + LLC, "if l == h"): "comparison of two slices (list_eq_dec in the model)",
+    (CANON, "fn npn_canonization_res", "res_perm[i] = i as u8"): "identity permutation (identity_perm in the model)",
+    (CANON, "fn npn_canonization_res", "res_perm.swap(swp, swp + 1)"): "adjacent transposition (perm_swap in the model)",
+})
+# functions of which only the listed statements are translated (no coverage check of the rest of the body)
+PARTIAL_FNS2 = {
+    (CANON, "fn p_canonization_ind"): "only the initial certificate index (the walk is calls of kernels and cmp)",
+    (CANON, "fn n_canonization_ind"): "only the initial certificate index (the walk is calls of kernels and cmp)",
+    (CANON, "fn npn_canonization_ind"): "only the initial certificate index (the walk is calls of kernels and cmp)",
+}
+_IT = "iterator over the set bits, `(0..32).filter(|v| (x >> v & 1) != 0)` (bits_of by N.testbit in the model)"
+_LUT = "loop over the assignments calling value() of the cube and of a Lut (forallb over `assignments` in the model)"
+_FMT = "text output (write!/format! with string literals; Model cube_display/ecube_display, property C16)"
+SKIPPED_FNS2.update({
+    (CUBE, IC + " :: fn pos_vars"): _IT,
+    (CUBE, IC + " :: fn neg_vars"): _IT,
+    (CUBE, IC + " :: fn implies_lut"): _LUT,
+    (CUBE, "impl fmt::Display for Cube :: fn fmt"): _FMT,
+    (ECUBE, IE + " :: fn vars"): _IT,
+    (ECUBE, IE + " :: fn implies_lut"): _LUT,
+    (ECUBE, "impl fmt::Display for Ecube :: fn fmt"): _FMT,
+    (BDD, "fn table_complexity"): "sum of calls of the two level functions over ranges (sumM over seq in the model)",
+    (CANON, "fn find_permutation_swap"): "comparisons of vector elements, no word expression",
+    (CANON, "fn check_permutation_swap"): "assertions on vector elements, no word expression",
+    (CANON, "fn generate_single_swap_permutations"): "vector insertions, no word expression",
+    (CANON, "fn generate_swaps"): "calls only",
+    (CANON, "fn p_canonization_res"): "permutation bookkeeping (identity_perm / perm_swap in the model), no word expression",
+    (CANON, "fn p_canonization"): "dispatch on num_vars, calls only",
+    (CANON, "fn n_canonization"): "dispatch on num_vars, calls only",
+    (CANON, "fn npn_canonization"): "dispatch on num_vars, calls only",
+    (CANON, "fn verif_sequences"): "verification hook (cfg(volute_verif)), calls only",
+})
+# pieces of the model that correspond to translated Rust statements but are shaped too differently for a tie by
+# conversion; they are listed in the trailer of Exprs2.v and in Proofs/ExprsTie2.v
+NOT_TIED2 = [
+    "bdd.rs level_complexity: the loop head `(0..64).step_by(shift)` - the model takes count := 2^(5 - level) windows; "
+    "ExprsTie2.tie_bdd_window_count proves 2^(5 - level) = 64 / gx_bdd_shift level for 1 <= level < 6, the literals 0 and 64 "
+    "of the range are not read from the source",
+    "bdd.rs large_level_complexity: slicing (table[i..i + nb], &c[mid_nb..], &c[..mid_nb]), `l == h` on slices, the loop "
+    "head `(0..table.len()).step_by(nb)`, `std::iter::zip(l, h).all(..)` / `.iter().all(..)` / `.iter().any(..)` themselves "
+    "(only their closures are translated); nb and mid_nb are nat powers in the model (tie through N.of_nat)",
+    "canonization.rs generate_gray_flips: the range `1..end` (seq 1 (2^nb_bits - 1) in the model); the model does not "
+    "truncate the pushed values to u8 (ties under the hypothesis that the value fits)",
+    "canonization.rs *_canonization_res: the model unrolls `for _ in 0..2` (flip_res_step); ties restate it with the "
+    "generated updates",
+]
+
+
+def generate2():
+    del OVERRIDDEN2[:]
+    REGISTRY.clear()
+    SOURCES2.clear()
+    STRUCT_NAMES.clear()
+    STRUCT_NAMES.update(STRUCT_VOCAB)
+    for rel in FILES2:
+        SOURCES2[rel] = Source2(rel)
+    fn_cache = {}
+    defs = []
+    for spec in SPECS2:
+        src = SOURCES2[spec["file"]]
+        key = (spec["impl"], spec["fn"])
+        if key not in src.fns:
+            fail("%s: %s not found" % (spec["file"], fn_label(*key)))
+        ck = (spec["file"],) + key
+        if ck not in fn_cache:
+            fn_cache[ck] = Fn2(src, key)
+        defs.append(build_definition2(fn_cache[ck], spec))
+    used = set()
+    for ck, fn in fn_cache.items():
+        if (ck[0], fn_label(ck[1], ck[2])) in PARTIAL_FNS2:
+            continue
+        used |= check_coverage2(fn)
+    # stale lists fail; every function of the four files is translated, partial or listed
+    for k in list(SKIPPED_LETS2) + list(SKIPPED_STMTS2):
+        if k not in used:
+            fail("the skip list names %s: %s `%s`, which does not exist (any more) or is translated" % k)
+    for rel in FILES2:
+        for key in SOURCES2[rel].order:
+            lab = (rel, fn_label(*key))
+            listed = lab in SKIPPED_FNS2
+            translated = (rel,) + key in fn_cache
+            if listed == translated:
+                fail("%s: %s is %s" % (rel, lab[1], "both translated and listed as skipped" if listed else
+                                       "neither translated nor listed in SKIPPED_FNS2"))
+    for lab in list(SKIPPED_FNS2) + list(PARTIAL_FNS2):
+        if not any(lab == (rel, fn_label(*key)) for rel in FILES2 for key in SOURCES2[rel].order):
+            fail("the skip list names %s: %s, which does not exist" % lab)
+
+    L = []
+    L.append("(* GENERATED by gen/gen_exprs.py from src/sop/cube.rs, src/sop/ecube.rs, src/bdd.rs and src/canonization.rs -")
+    L.append("   do not edit.  Expressions of the two-level forms, of the BDD kernel and of the certificate reconstruction,")
+    L.append("   translated from the Rust source text on every run and typed by the declared Rust types.")
+    L.append("   Proofs/ExprsTie2.v proves that each of them is the expression of the hand-written model. *)")
+    L.append("From Coq Require Import List NArith Arith Bool.")
+    L.append("From V Require Import Base.Res Gen.Tables Model.Kernels Model.TwoLevel.")
+    L.append("From V Require Model.Canon.")
+    L.append("Import ListNotations.")
+    L.append("Open Scope N_scope.")
+    L.append("")
+    L.append("(* `e as u8` *)")
+    L.append("Definition wrap8 (x : N) : N := N.land x 0xff.")
+    L.append("")
+    for d in defs:
+        regime = (" [" + ", ".join(d["path"]) + "]") if d["path"] else ""
+        loc = "%s: %s%s" % (d["file"].replace("src/", ""), fn_label(d["impl"], d["fn"]), regime)
+        if d["src"] is not None:
+            cm = "(* %s, whole body\n   `%s`" % (loc, coq_comment(d["src"]))
+        elif d["stmt"] is None:
+            cm = "(* %s, the region as one value (target %s)" % (loc, d["target"])
+        else:
+            cm = "(* %s, `%s`" % (loc, coq_comment(d["stmt"]))
+        if d["lets"]:
+            cm += "\n   with " + "  ".join("`%s`" % coq_comment(x) for x in d["lets"])
+        if d["calls"]:
+            cm += "\n   forwards to " + ", ".join(d["calls"])
+        cm += " *)"
+        L.append(cm)
+        L.append(d["text"])
+        if d["guard"]:
+            L.append("(* dev-profile checks of the shift amounts of the statement above (amount < width of the shifted type) *)")
+            L.append(d["guard"])
+        L.append("")
+    L.append("(* functions of these files that are NOT translated:")
+    for (file, lab), why in sorted(SKIPPED_FNS2.items()):
+        L.append("   %s: %s - %s" % (file.replace("src/", ""), lab, why))
+    L.append("   functions of which only the statements above are translated:")
+    for (file, lab), why in sorted(PARTIAL_FNS2.items()):
+        L.append("   %s: %s - %s" % (file.replace("src/", ""), lab, why))
+    L.append("   statements and locals of the translated functions that are not translated:")
+    for (file, lab, name), why in sorted(SKIPPED_LETS2.items()):
+        L.append("   %s: %s `let %s` - %s" % (file.replace("src/", ""), lab, name, why))
+    for (file, lab, st), why in sorted(SKIPPED_STMTS2.items()):
+        L.append("   %s: %s `%s ..` - %s" % (file.replace("src/", ""), lab, coq_comment(st), why))
+    L.append("   (macros other than the translated assert! arguments - panic!(), assert_eq! - are recorded by Gen/Guards.v)")
+    L.append("   locals over which a definition above is abstracted (they are parameters there):")
+    for file, lab, st in OVERRIDDEN2:
+        L.append("   %s: %s `%s`" % (file.replace("src/", ""), lab, coq_comment(st)))
+    L.append("   shifts whose dev-profile amount check is NOT emitted (the model has no check there either):")
+    for d in defs:
+        sh = [(a, w) for a, w in d["shifts"] if not (a.isdigit() and w and int(a) < w)]
+        if sh and not d["guard"]:
+            L.append("   %s: %s" % (d["name"], ", ".join("%s < %s" % (a, w if w else "width of an untyped literal") for a, w in sh)))
+    L.append("   model pieces shaped differently from the Rust statements (see Proofs/ExprsTie2.v):")
+    for t in NOT_TIED2:
+        L.append("   - " + coq_comment(t))
+    L.append("*)")
+    L.append("")
+    return "\n".join(L), defs
+
+
 def main(verbose=False, out_dir=None):
-    """regenerates coq/Gen/Exprs.v (or <out_dir>/Exprs.v); returns True when the file content changed"""
+    """regenerates coq/Gen/Exprs.v and coq/Gen/Exprs2.v (or <out_dir>/...); returns True when a file content changed"""
+    out = out_dir or os.environ.get("VERIF_EXPRS_OUT") or COQ
     content, defs = generate()
-    changed = G.write_if_changed(os.path.join(out_dir or os.environ.get("VERIF_EXPRS_OUT") or COQ, "Exprs.v"), content)
+    changed = G.write_if_changed(os.path.join(out, "Exprs.v"), content)
+    content2, defs2 = generate2()
+    changed2 = G.write_if_changed(os.path.join(out, "Exprs2.v"), content2)
     if verbose:
         for d in defs:
             print("%-28s %s: %s%s  `%s`" % (d["name"], d["file"], d["fn"],
                                             (" [" + ", ".join(d["path"]) + "]") if d["path"] else "", d["stmt"]))
         print("Exprs.v %s (%d definitions)" % ("rewritten" if changed else "unchanged", len(defs)))
-    return changed
+        for d in defs2:
+            print("%-28s %s: %s%s  %s" % (d["name"], d["file"], fn_label(d["impl"], d["fn"]),
+                                          (" [" + ", ".join(d["path"]) + "]") if d["path"] else "",
+                                          ("`%s`" % d["stmt"]) if d["stmt"] else "(whole body)" if d["src"] else "(region value)"))
+        print("Exprs2.v %s (%d definitions, %d shift checks)" % ("rewritten" if changed2 else "unchanged", len(defs2),
+                                                                   sum(1 for d in defs2 if d["guard"])))
+    return changed or changed2
 
 
 if __name__ == "__main__":
